@@ -322,3 +322,5 @@ def run(model, rep):
     rule_b(model, rep)
     rule_c(model, rep)
     rule_de(model, rep)
+    from . import shared
+    shared.fact_expand_settings(model, rep, "C05.e-declared-limit")
